@@ -19,7 +19,9 @@ from .kernel import ENGINE_VERSION, Ctx, HarnessError, Known, Violation, run_see
 VERIF = os.path.dirname(os.path.dirname(os.path.abspath(__file__)))
 KNOWN_PATH = os.path.join(VERIF, "known_findings.jsonl")
 REPLAY_DIR = os.path.join(VERIF, "replays")
-EVIDENCE_DIR = os.path.join(VERIF, "evidence")
+EVIDENCE_DIR = os.environ.get("VERIF_EVIDENCE_DIR") or os.path.join(VERIF, "evidence")
+if os.environ.get("VERIF_REPO"):
+    REPLAY_DIR = os.path.join(os.environ["VERIF_REPO"], "_replays")  # self-tests against scratch copies
 
 
 # --------------------------------------------------------------------------- single run
